@@ -507,6 +507,11 @@ func (c *Conn) Parse(data []byte) (retErr error) {
 					if fin {
 						message = c.message
 						c.message = nil
+						if message == nil {
+							// all the frames had an empty payload: the message
+							// is empty, but it is still a message.
+							message = allocator.Malloc(0)
+						}
 						if c.compress {
 							var pb *[]byte
 							var rc io.ReadCloser
